@@ -217,7 +217,8 @@ def execute_factory(obl):
             n_flush += "flush" in names
             n_comp += "compact" in names
         r.nontrivial = n_susp > 0
-        r.labels += [f"crash-points>={min(n // 25 * 25, 150)}", "exhaustive-crash-points"]
+        lo = min((n + 1) // 25 * 25, 150)
+        r.labels += [f"crash-points:{lo}-{lo + 24}" if lo < 150 else "crash-points:150+", "exhaustive-crash-points"]
         if n_flush:
             r.labels.append("crash-during-flush")
         if n_comp:
@@ -252,7 +253,9 @@ def strategy(single):
 
 _RULE = ("writers doing put/delete over 2-5 keys on LSMTree(memtable 1-4, 2-4 levels, size-tiered/leveled/FIFO) + WriteAheadLog "
          "(sync every write / batch 2-4 / periodic); the workload is re-executed and abandoned after k events for EVERY k = 0..N, then "
-         "crash(), recover_from_crash(), get_sync of all keys, recover again, crash+recover again; ")
+         "crash(), recover_from_crash(), get_sync of all keys, recover again, crash+recover again; NOTE: evaluations count WORKLOADS - "
+         "each workload enumerates every crash point k = 0..N (measured mean about 30 per workload, max about 150; the exact number "
+         "of a case is in Result.observed['crash_points'] and bucketed in its label crash-points:<bucket>); ")
 
 OBLIGATIONS = [
     Obligation("crash", strategy(False), execute_factory("crash"), {"quick": 360, "thorough": 8000},
